@@ -93,11 +93,15 @@ PCDATA_TAGS = ("description", "metadefault", "example", "default")
 
 def load_dtd():
     """{element: ordered list of allowed child elements} from schema.dtd."""
-    for rel in ("docs/schema.dtd", "src/ZConfig/doc/schema.dtd",
-                "doc/schema.dtd"):
-        path = os.path.join(repo_root(), rel)
-        if os.path.exists(path):
-            break
+    for root in (repo_root(), "/repo"):      # (a scratch copy that holds only src/ uses the repository's DTD)
+        for rel in ("docs/schema.dtd", "src/ZConfig/doc/schema.dtd",
+                    "doc/schema.dtd"):
+            path = os.path.join(root, rel)
+            if os.path.exists(path):
+                break
+        else:
+            continue
+        break
     else:
         raise RuntimeError("schema.dtd not found")
     with open(path) as f:
